@@ -210,6 +210,18 @@ def body(ck, rng, work, thorough, model_ok):
             forms.append(["--lint", name, "-e"])
         for a in forms:
             jobs.append({"args": a, "cwd": d, "stdin": None, "script_kind": "lint", "text": text})
+    # large files: every instruction of a file is linted, whatever its length (seed C20-w6-m2: files of >= 1024 instructions were
+    # linted in 4 parallel blocks of len / 4 instructions, so the last len % 4 instructions were never looked at)
+    for n_ in (255, 1023, 1024, 1025, 1026, 1027, 2049) + ((4099, 10001) if thorough else ()):
+        for back_ in (0, 1, 2, 3, n_ // 2, None):
+            k += 1
+            ls_ = [rng.choice(["echo line%d" % i_, "out%d = set %d" % (i_, i_), "# Comment %d" % i_, "", ":lab%d noop" % i_]) for i_ in range(n_)]
+            if back_ is not None:
+                ls_[n_ - 1 - back_] = rng.choice(["Echo last", "OUT = set 1", ":Label echo x", "x = SET 2", "std::Echo y"])
+            text = "\n".join(ls_) + rng.choice(["\n", ""])
+            d = mkdir(k)
+            open(os.path.join(d, "big.ds"), "w").write(text)
+            jobs.append({"args": [rng.choice(["-l", "--lint"]), "big.ds"], "cwd": d, "stdin": None, "script_kind": "lint", "text": text})
     # the fixed part of the table: options alone, mis-spelt, files named like options, missing files
     for rep in range(3 if thorough else 1):
         k += 1
